@@ -193,6 +193,8 @@ pub struct Outcome {
     pub stale_clones: u64,
     pub counters: tsrun::verif::Counters,
     pub exports: Vec<(String, String)>,
+    /// export names in the order `get_export_names()` returned them
+    pub export_order: Vec<String>,
     pub forced_collects: u64,
     pub idle_steps: u64,
     pub deferred_settled: u64,
@@ -751,6 +753,7 @@ impl Run {
         self.out.console = h.console.borrow().get(self.console_start..).map(|s| s.to_vec()).unwrap_or_default();
         let names = {
             let mut n = h.interp.get_export_names();
+            self.out.export_order = n.clone();
             n.sort();
             n
         };
